@@ -1,5 +1,6 @@
 import SqlModel.Grouping.MatchSpec
 import SqlProofs.Group.GoodMatching
+import SqlProofs.Group.SpecShape
 /-!
 # SqlProofs.MatchSpec — `_group_matching` is the textbook stack matcher (property C09)
 
@@ -191,5 +192,162 @@ theorem matchLoop_eq_spec {upper : Text → Text} {cls : Cls} {mOpen mClose : Li
   rw [h] at h'
   cases h'
   exact hcur
+
+/-! ## through the recursion: `groupMatching` is `specMatchRec` -/
+
+theorem mapGroups_eq_specRecList {isOpen isClose : Node → Bool} {cls : Cls}
+    {f : Cls → List Node → Except PyErr (List Node)} :
+    ∀ (ks ks1 : List Node),
+      (∀ c kids kids', Node.grp c kids ∈ ks → f c kids = .ok kids' → kids' = specMatchRec isOpen isClose cls kids) →
+      mapGroups (fun k => !k.isInst cls) f ks = .ok ks1 → ks1 = specRecList isOpen isClose cls ks := by
+  intro ks
+  induction ks with
+  | nil => intro ks1 _ h; simp [mapGroups] at h; subst h; simp [specRecList]
+  | cons k rest ih =>
+    intro ks1 hf h
+    have ihr := fun r hr => ih r (fun c kids kids' hm => hf c kids kids' (List.mem_cons_of_mem _ hm)) hr
+    cases k with
+    | tok tt v =>
+      simp only [mapGroups] at h
+      cases hr : mapGroups (fun k => !k.isInst cls) f rest with
+      | error e => simp [hr] at h
+      | ok rest' =>
+        simp only [hr, Except.ok.injEq] at h
+        subst h
+        simp [specRecList, specRecNode, ihr _ hr]
+    | grp c kids =>
+      simp only [mapGroups] at h
+      by_cases he : (Node.grp c kids).isInst cls = true
+      · simp only [he, Bool.not_true, Bool.false_eq_true, ↓reduceIte] at h
+        cases hr : mapGroups (fun k => !k.isInst cls) f rest with
+        | error e => simp [hr] at h
+        | ok rest' =>
+          simp only [hr, Except.ok.injEq] at h
+          subst h
+          simp [specRecList, specRecNode, he, ihr _ hr]
+      · have he' : (Node.grp c kids).isInst cls = false := by simpa using he
+        simp only [he', Bool.not_false, ↓reduceIte] at h
+        cases hk : f c kids with
+        | error e => simp [hk] at h
+        | ok kids' =>
+          simp only [hk] at h
+          cases hr : mapGroups (fun k => !k.isInst cls) f rest with
+          | error e => simp [hr] at h
+          | ok rest' =>
+            simp only [hr, Except.ok.injEq] at h
+            subst h
+            have := hf c kids kids' (List.mem_cons_self) hk
+            simp [specRecList, specRecNode, he', ihr _ hr, this, specMatchRec]
+
+/-- **`_group_matching` is the recursive textbook matcher** whenever it returns (i.e. whenever the fuel suffices) -/
+theorem groupMatching_eq_spec {upper : Text → Text} {cls : Cls} {mOpen mClose : List MPat} :
+    ∀ (fuel : Nat) (ks ks' : List Node), groupMatching upper cls mOpen mClose fuel ks = .ok ks' →
+      ks' = specMatchRec (isOpenTok upper cls mOpen) (isCloseTok upper cls mOpen mClose) cls ks := by
+  intro fuel
+  induction fuel with
+  | zero => intro ks ks' h; simp [groupMatching] at h
+  | succ n ih =>
+    intro ks ks' h
+    simp only [groupMatching] at h
+    cases hm : mapGroups (fun k => !k.isInst cls) (fun _ kids => groupMatching upper cls mOpen mClose n kids) ks with
+    | error e => simp [hm] at h
+    | ok ks1 =>
+      simp only [hm] at h
+      cases hl : matchLoop upper cls mOpen mClose ks1 0 { cur := ks1, opens := [], off := 0 } with
+      | error e => simp [hl] at h
+      | ok st =>
+        simp only [hl, Except.ok.injEq] at h
+        subst h
+        have h1 := mapGroups_eq_specRecList (isOpen := isOpenTok upper cls mOpen)
+          (isClose := isCloseTok upper cls mOpen mClose) ks ks1 (fun _ kids kids' _ hk => ih kids kids' hk) hm
+        rw [matchLoop_eq_spec hl, h1, specMatchRec]
+
+/-! ### and it returns as soon as the fuel exceeds the nesting depth -/
+theorem depth_le_of_mem {ks : List Node} {k : Node} (h : k ∈ ks) : k.depth ≤ depthL ks := by
+  induction ks with
+  | nil => cases h
+  | cons x xs ih =>
+    simp only [depthL]
+    cases h with
+    | head => exact Nat.le_max_left _ _
+    | tail _ h => exact Nat.le_trans (ih h) (Nat.le_max_right _ _)
+
+theorem mapGroups_specRecList_ok {isOpen isClose : Node → Bool} {cls : Cls}
+    {f : Cls → List Node → Except PyErr (List Node)} :
+    ∀ (ks : List Node),
+      (∀ c kids, Node.grp c kids ∈ ks → f c kids = .ok (specMatchRec isOpen isClose cls kids)) →
+      mapGroups (fun k => !k.isInst cls) f ks = .ok (specRecList isOpen isClose cls ks) := by
+  intro ks
+  induction ks with
+  | nil => intro _; simp [mapGroups, specRecList]
+  | cons k rest ih =>
+    intro hf
+    have ihr := ih (fun c kids hm => hf c kids (List.mem_cons_of_mem _ hm))
+    cases k with
+    | tok tt v => simp [mapGroups, ihr, specRecList, specRecNode]
+    | grp c kids =>
+      by_cases he : (Node.grp c kids).isInst cls = true
+      · simp [mapGroups, he, ihr, specRecList, specRecNode]
+      · have he' : (Node.grp c kids).isInst cls = false := by simpa using he
+        simp [mapGroups, he', ihr, specRecList, specRecNode, hf c kids List.mem_cons_self, specMatchRec]
+
+/-- **totality**: with fuel above the nesting depth `_group_matching` returns the recursive matcher's result;
+its only possible failure is running out of recursion depth -/
+theorem groupMatching_total {upper : Text → Text} {cls : Cls} {mOpen mClose : List MPat} :
+    ∀ (fuel : Nat) (ks : List Node), depthL ks < fuel →
+      groupMatching upper cls mOpen mClose fuel ks =
+        .ok (specMatchRec (isOpenTok upper cls mOpen) (isCloseTok upper cls mOpen mClose) cls ks) := by
+  intro fuel
+  induction fuel with
+  | zero => intro ks h; omega
+  | succ n ih =>
+    intro ks hd
+    simp only [groupMatching]
+    have hm := mapGroups_specRecList_ok (isOpen := isOpenTok upper cls mOpen)
+      (isClose := isCloseTok upper cls mOpen mClose) (cls := cls)
+      (f := fun _ kids => groupMatching upper cls mOpen mClose n kids) ks (by
+        intro c kids hmem
+        apply ih
+        have := depth_le_of_mem hmem
+        simp only [Node.depth] at this
+        omega)
+    rw [hm]
+    simp only
+    obtain ⟨st, hst⟩ := matchLoop_total upper cls mOpen mClose
+      (specRecList (isOpenTok upper cls mOpen) (isCloseTok upper cls mOpen mClose) cls ks)
+    rw [hst]
+    simp only [matchLoop_eq_spec hst, specMatchRec]
+
+/-! ## shape of what `_group_matching` builds at one level -/
+
+/-- an opener is a leaf matching `M_OPEN`; a closer is a leaf matching `M_CLOSE` -/
+theorem isOpenTok_leaf {upper : Text → Text} {cls : Cls} {mOpen : List MPat} {k : Node}
+    (h : isOpenTok upper cls mOpen k = true) :
+    ∃ tt v, k = Node.tok tt v ∧ mOpen.any ((Node.tok tt v).matchP upper) = true := by
+  simp only [isOpenTok, Bool.and_eq_true] at h
+  cases k with
+  | tok tt v => exact ⟨tt, v, rfl, h.2⟩
+  | grp c ks =>
+    have := h.2
+    simp [Node.matchP, Node.match] at this
+
+theorem isCloseTok_leaf {upper : Text → Text} {cls : Cls} {mOpen mClose : List MPat} {k : Node}
+    (h : isCloseTok upper cls mOpen mClose k = true) :
+    ∃ tt v, k = Node.tok tt v ∧ mClose.any ((Node.tok tt v).matchP upper) = true := by
+  simp only [isCloseTok, Bool.and_eq_true] at h
+  cases k with
+  | tok tt v => exact ⟨tt, v, rfl, h.2⟩
+  | grp c ks =>
+    have := h.2
+    simp [Node.matchP, Node.match] at this
+
+/-- every child the loop leaves in `tlist` is a child it found there, or a group `[opening token, …, closing token]`
+with the same property inside -/
+theorem matchLoop_shape {upper : Text → Text} {cls : Cls} {mOpen mClose : List MPat} {snap : List Node}
+    {st : MatchSt} (h : matchLoop upper cls mOpen mClose snap 0 { cur := snap, opens := [], off := 0 } = .ok st)
+    {g : Node} (hg : g ∈ st.cur) :
+    Shape (isOpenTok upper cls mOpen) (isCloseTok upper cls mOpen mClose) cls snap g := by
+  rw [matchLoop_eq_spec h] at hg
+  exact specMatch_shape hg
 
 end Sql
